@@ -1450,6 +1450,8 @@ def run(ctx):
         c = json.loads(f.read_text())
         if "search" in c:
             search_roundtrip(ctx, c["search"])
+        elif "fit_directory" in c:
+            c11_grow.replay_growth(ctx, c)
         else:
             one_case(ctx, c["program"], cfg, label=f.name)
     ctx.notes["t_corpus_s"] = round(time.time() - t0, 1)
